@@ -200,45 +200,68 @@ def fixed_point(text, path=None, order=None):
             return "table %s compiled from the printed text differs:\n%s\n--- printed text:\n%s" % (t, "\n".join(d), t1[:1200])
     return None
 
-def gen_value_program(rng):
-    """positioning programs exercising anonymous and named value records in horizontal and vertical features"""
+def gen_value_program(rng, expand=False, state=None):
+    """positioning programs exercising anonymous and named value records (formats A, B and C with device tables) in horizontal and
+    vertical features. Returns (text with named references, the same text with every reference replaced by its definition)."""
     g = ["A", "B", "C", "D", "a", "b", "c"]
-    lines = ["languagesystem DFLT dflt;"]
-    named = []
+    head = ["languagesystem DFLT dflt;"]; defs = {}
+    def dev():
+        if rng.chance(60): return "<device NULL>"
+        return "<device %s>" % ", ".join("%d %d" % (sz, rng.randint(-3, 3)) for sz in sorted(rng.sample(range(8, 20), rng.randint(1, 3))))
     for i in range(rng.randint(0, 3)):
-        k = rng.below(3)
-        nm = "VR%d" % i
-        if k == 0: lines.append("valueRecordDef %d %s;" % (rng.randint(-50, 50), nm))
-        elif k == 1: lines.append("valueRecordDef <%d %d %d %d> %s;" % (rng.randint(-9, 9), rng.randint(-9, 9), rng.randint(-50, 50), rng.randint(-50, 50), nm))
-        else: lines.append("valueRecordDef <0 0 %d 0> %s;" % (rng.randint(-50, 50), nm))
-        named.append(nm)
-    def vr():
         k = rng.below(4)
-        if k == 0 and named: return "<%s>" % rng.choice(named)
-        if k == 1: return str(rng.randint(-60, 60))
-        if k == 2: return "<%d %d %d %d>" % (rng.randint(-9, 9), rng.randint(-9, 9), rng.randint(-50, 50), rng.randint(-50, 50))
-        return "<0 0 %d 0>" % rng.randint(-50, 50) if rng.chance(50) else "<0 0 0 %d>" % rng.randint(-50, 50)
+        nm = "VR%d" % i
+        if k == 0: body = "%d" % rng.randint(-50, 50)
+        elif k == 1: body = "<%d %d %d %d>" % (rng.randint(-9, 9), rng.randint(-9, 9), rng.randint(-50, 50), rng.randint(-50, 50))
+        elif k == 2: body = "<0 0 %d 0>" % rng.randint(-50, 50)
+        else: body = "<%d %d %d %d %s %s %s %s>" % (rng.randint(-9, 9), rng.randint(-9, 9), rng.randint(-50, 50), rng.randint(-50, 50), dev(), dev(), dev(), "<device 11 1>")
+        head.append("valueRecordDef %s %s;" % (body, nm)); defs[nm] = body
+    named_feats = []; expanded_feats = []
+    def vr():
+        k = rng.below(5)
+        if k == 0 and defs:
+            nm = rng.choice(sorted(defs))
+            # a format A definition is an advance in the writing direction OF ITS DEFINITION (top level: horizontal)
+            d = defs[nm]
+            return "<%s>" % nm, (d if d.startswith("<") else "<0 0 %s 0>" % d)
+        if k == 1: t = str(rng.randint(-60, 60))
+        elif k == 2: t = "<%d %d %d %d>" % (rng.randint(-9, 9), rng.randint(-9, 9), rng.randint(-50, 50), rng.randint(-50, 50))
+        elif k == 3: t = "<%d 0 %d 0 %s <device NULL> %s <device NULL>>" % (rng.randint(-9, 9), rng.randint(-50, 50), dev(), "<device 12 -1>")
+        else: t = "<0 0 %d 0>" % rng.randint(-50, 50) if rng.chance(50) else "<0 0 0 %d>" % rng.randint(-50, 50)
+        return t, t
     for tag in rng.sample(["kern", "vkrn", "vpal", "palt", "dist", "valt", "vhal"], rng.randint(1, 4)):
-        body = []
+        singles = []; pairs = []
         seen1 = set(); seen2 = set()
         for _ in range(rng.randint(1, 4)):
             if rng.chance(50):
                 a = rng.choice(g)
                 if a in seen1: continue
-                seen1.add(a); body.append("pos %s %s;" % (a, vr()))
+                seen1.add(a); v = vr(); singles.append(("pos %s %s;" % (a, v[0]), "pos %s %s;" % (a, v[1])))
             else:
                 a, b = rng.choice(g), rng.choice(g)
                 if (a, b) in seen2: continue
-                seen2.add((a, b))
-                body.append("pos %s %s %s;" % (a, b, vr()) if rng.chance(60) else "pos %s %s %s %s;" % (a, vr(), b, vr()))
-        # single and pair adjustments live in different lookups
-        singles = [l for l in body if len(l.split()) == 3 or (l.split()[2].startswith("<") or l.split()[2].lstrip("-").isdigit())]
-        pairs = [l for l in body if l not in singles]
-        blk = ""
-        if singles: blk += "  lookup %s_s {\n    %s\n  } %s_s;\n" % (tag, "\n    ".join(singles), tag)
-        if pairs: blk += "  lookup %s_p {\n    %s\n  } %s_p;\n" % (tag, "\n    ".join(pairs), tag)
-        lines.append("feature %s {\n%s} %s;" % (tag, blk, tag))
-    return "\n".join(lines) + "\n"
+                seen2.add((a, b)); v = vr(); w = vr()
+                if rng.chance(60): pairs.append(("pos %s %s %s;" % (a, b, v[0]), "pos %s %s %s;" % (a, b, v[1])))
+                else: pairs.append(("pos %s %s %s %s;" % (a, v[0], b, w[0]), "pos %s %s %s %s;" % (a, v[1], b, w[1])))
+        for which, store in ((0, named_feats), (1, expanded_feats)):
+            blk = ""
+            if singles: blk += "  lookup %s_s {\n    %s\n  } %s_s;\n" % (tag, "\n    ".join(x[which] for x in singles), tag)
+            if pairs: blk += "  lookup %s_p {\n    %s\n  } %s_p;\n" % (tag, "\n    ".join(x[which] for x in pairs), tag)
+            store.append("feature %s {\n%s} %s;" % (tag, blk, tag))
+    return "\n".join(head + named_feats) + "\n", "\n".join(head + expanded_feats) + "\n"
+
+def named_equals_expanded(named, expanded):
+    """a reference <NAME> means what its definition says: both texts compile to the same tables"""
+    try: a = compile_fea(named)
+    except Exception: return None
+    try: b = compile_fea(expanded)
+    except Exception as e: return "the expanded text does not compile: %r" % (e,)
+    for t in sorted(set(a) | set(b)):
+        if a.get(t) != b.get(t):
+            import difflib
+            d = list(difflib.unified_diff((a.get(t) or "").split("\n"), (b.get(t) or "").split("\n"), lineterm="", n=2))[:30]
+            return "table %s: named references (-) and their written-out definitions (+) compile differently:\n%s\n--- named:\n%s" % (t, "\n".join(d), named[:1200])
+    return None
 
 def sweeps(tier, rng):
     def run_corpus_fea():
@@ -253,10 +276,13 @@ def sweeps(tier, rng):
             yield ((corpus.rel(p),), bad)
     def run_generated_fixed_point():
         from props.C07 import gen_feature_program
-        n = 60 if tier == "quick" else 150 if tier == "search" else 3000
+        n = 240 if tier == "quick" else 500 if tier == "search" else 6000
         for i in range(n):
             if i % 2:
-                text = gen_value_program(rng); order = None
+                text, expanded = gen_value_program(rng); order = None
+                bad = named_equals_expanded(text, expanded)
+                if bad:
+                    yield (("generated-named", i, text), bad); continue
             else:
                 base, extra, text, tags = gen_feature_program(rng); order = [".notdef", "space"] + base + extra
             try:
@@ -268,3 +294,278 @@ def sweeps(tier, rng):
     return [Sweep("corpus-fea-fixed-point", run_corpus_fea), Sweep("generated-fixed-point", run_generated_fixed_point)]
 
 def witness(fid): return None
+
+# ------------------------------------------------------------------ reference interpreter of the rule text
+# A program is an ordered list of lookups; a lookup is (name, kind, rules); features list the lookups they apply, in order.
+#   single:    [(glyph, glyph)]                     multiple: [(glyph, [glyphs])]         alternate: [(glyph, [alternates])]
+#   ligature:  [([components], ligature)]
+#   chain:     [(prefix sets, [(input set, lookup name | None)], suffix sets)]            a rule without any lookup is an `ignore`
+#   pos1:      [(glyph, (xPla, yPla, xAdv))]
+#   pos2:      [((glyph | class list), (glyph | class list), xAdv)]                        class rules after glyph rules
+#   chainpos:  like chain, calling pos1 lookups
+BASE = list("abcdefg")
+
+class Prog:
+    def __init__(self): self.lookups = []; self.features = []; self.extra = []
+
+def gen_program(rng):
+    P = Prog()
+    base = BASE[:rng.randint(4, 7)]
+    P.base = base
+    def new(n):
+        if n not in P.extra and n not in base: P.extra.append(n)
+        return n
+    pool = lambda: base + P.extra
+    subs = []
+    for i in range(rng.randint(2, 5)):
+        kind = rng.choice(["single", "single", "multiple", "ligature", "ligature", "alternate"])
+        nm = "S%d" % i; rules = []
+        if kind == "single":
+            suf = rng.choice([".x", ".y"])
+            for g in rng.sample(pool(), min(len(pool()), rng.randint(1, 3))):
+                if not g.endswith(suf): rules.append((g, new(g + suf)))
+        elif kind == "multiple":
+            for g in rng.sample(pool(), rng.randint(1, 2)): rules.append((g, [rng.choice(pool()), new(g + ".m")]))
+        elif kind == "ligature":
+            seen = set()
+            for _ in range(rng.randint(1, 4)):
+                comps = tuple(rng.choice(pool()) for _ in range(rng.randint(2, 3)))
+                if comps in seen: continue
+                seen.add(comps); rules.append((list(comps), new("_".join(c.replace(".", "") for c in comps) + ".l")))
+        else:
+            g = rng.choice(base); rules.append((g, [new(g + ".a1"), new(g + ".a2")]))
+        if rules: P.lookups.append((nm, kind, rules)); subs.append((nm, kind, rules))
+    sets = lambda: sorted(set(rng.choice(base if rng.chance(65) else pool()) for _ in range(rng.randint(1, 3))))
+    nctx = rng.randint(0, 3)
+    for i in range(nctx):
+        if not subs: break
+        rules = []
+        for _ in range(rng.randint(1, 4)):
+            tgt = rng.choice(subs)
+            pre = [sets() for _ in range(rng.randint(0, 2))]; suf = [sets() for _ in range(rng.randint(0, 2))]
+            if rng.chance(15):
+                rules.append((pre, [(sets(), None)], suf)); continue                     # ignore sub
+            if tgt[1] == "ligature":
+                comps = rng.choice(tgt[2])[0]
+                inp = [([comps[0]], tgt[0])] + [([c], None) for c in comps[1:]]
+            else:
+                g = rng.choice(tgt[2])[0]
+                inp = [([g] if rng.chance(60) else sorted(set([g, rng.choice(pool())])), tgt[0])]
+                if rng.chance(30): inp.append((sets(), None))
+                if rng.chance(20) and len(subs) > 1:
+                    t2 = rng.choice([s for s in subs if s[1] in ("single",)] or [tgt])
+                    if t2[1] == "single": inp.append(([rng.choice(t2[2])[0]], t2[0]))
+            rules.append((pre, inp, suf))
+        P.lookups.append(("C%d" % i, "chain", rules))
+    if rng.chance(35) and len(base) >= 5:
+        # motif: many rules over ONE partition of the letters into classes, with two-glyph contexts: the shape for which a
+        # class-based (format 2) subtable is the smallest encoding
+        letters = list(base); rng.shuffle(letters)
+        k = rng.randint(2, 3); part = [sorted(letters[j::k]) for j in range(k)]
+        tgt_g = part[0][0]
+        P.lookups.append(("SM", "single", [(g, new(g + ".k")) for g in part[0]])); subs.append(P.lookups[-1])
+        rules = []; seen = set()
+        for _ in range(rng.randint(6, 9)):
+            pre = [rng.choice(part) for _ in range(rng.randint(1, 3))]; suf = [rng.choice(part) for _ in range(rng.randint(0, 2))]
+            key = (tuple(map(tuple, pre)), tuple(map(tuple, suf)))
+            if key in seen: continue
+            seen.add(key); rules.append((pre, [(part[0], "SM")], suf))
+        P.lookups.append(("CM", "chain", rules))
+    # which lookups are applied directly
+    called = {l for _, k, rs in P.lookups if k == "chain" for (_, inp, _) in rs for (_, l) in inp if l}
+    tags = ["ccmp", "liga", "calt", "rlig", "clig"]
+    feats = {}
+    order = [l for l in P.lookups]
+    rng.shuffle(order)                                     # the order in which lookups are WRITTEN decides the order they apply in
+    # context lookups must be written after the lookups they call
+    names_pos = {l[0]: i for i, l in enumerate(order)}
+    order.sort(key=lambda l: (1 if l[1] == "chain" else 0, names_pos[l[0]]))
+    if rng.chance(50):
+        # interleave: move some contexts earlier if everything they call is already written
+        for l in [x for x in order if x[1] == "chain"]:
+            calls = {c for (_, inp, _) in l[2] for (_, c) in inp if c}
+            idx = max([order.index(next(o for o in order if o[0] == c)) for c in calls] + [-1]) + 1
+            order.remove(l); order.insert(min(len(order), idx + rng.randint(0, 2)), l)
+    P.lookups = order
+    for nm, kind, rules in P.lookups:
+        if nm in called and rng.chance(70): continue
+        tag = rng.choice(["ss01"]) if kind == "alternate" and rng.chance(50) else rng.choice(tags)
+        feats.setdefault(tag, []).append(nm)
+    # positioning
+    allg = pool()
+    npos = rng.randint(0, 3)
+    poss = []
+    for i in range(npos):
+        kind = rng.choice(["pos1", "pos2", "pos2"])
+        nm = "P%d" % i; rules = []
+        if kind == "pos1":
+            for g in rng.sample(allg, min(len(allg), rng.randint(1, 3))):
+                rules.append((g, (rng.randint(-30, 30) if rng.chance(50) else 0, rng.randint(-30, 30) if rng.chance(30) else 0, rng.randint(-60, 60))))
+        else:
+            seen = set()
+            for _ in range(rng.randint(1, 4)):
+                a, b = rng.choice(allg), rng.choice(allg)
+                if (a, b) in seen: continue
+                seen.add((a, b)); rules.append((a, b, rng.randint(-90, 90)))
+            if rng.chance(50) and len(allg) >= 4:
+                L = sorted(set(rng.sample(allg, 2))); R = sorted(set(rng.sample(allg, 2)))
+                rules.append((L, R, rng.randint(-60, 60)))
+        P.lookups.append((nm, kind, rules)); poss.append((nm, kind, rules))
+    p1 = [p for p in poss if p[1] == "pos1"]
+    if p1 and rng.chance(50):
+        rules = []
+        for _ in range(rng.randint(1, 3)):
+            tgt = rng.choice(p1); g = rng.choice(tgt[2])[0]
+            rules.append(([sets() for _ in range(rng.randint(0, 2))], [([g], tgt[0])], [sets() for _ in range(rng.randint(0, 1))]))
+        P.lookups.append(("CP0", "chainpos", rules))
+        if rng.chance(70): called = called | {r[1][0][1] for r in rules}
+    for nm, kind, rules in P.lookups:
+        if kind in ("pos1", "pos2", "chainpos"):
+            if nm in called and rng.chance(70): continue
+            feats.setdefault(rng.choice(["kern", "dist"]), []).append(nm)
+    P.features = list(feats.items())
+    return P
+
+def to_fea(P):
+    cls = lambda s: s[0] if len(s) == 1 else "[%s]" % " ".join(s)
+    out = ["languagesystem DFLT dflt;"]
+    for nm, kind, rules in P.lookups:
+        ls = []
+        for r in rules:
+            if kind == "single": ls.append("sub %s by %s;" % r)
+            elif kind == "multiple": ls.append("sub %s by %s;" % (r[0], " ".join(r[1])))
+            elif kind == "alternate": ls.append("sub %s from [%s];" % (r[0], " ".join(r[1])))
+            elif kind == "ligature": ls.append("sub %s by %s;" % (" ".join(r[0]), r[1]))
+            elif kind in ("chain", "chainpos"):
+                kw = "sub" if kind == "chain" else "pos"
+                pre, inp, suf = r
+                body = " ".join([cls(s) for s in pre] + [cls(s) + "'" + (" lookup %s" % l if l else "") for s, l in inp] + [cls(s) for s in suf])
+                ls.append(("ignore %s %s;" if not any(l for _, l in inp) else "%s %s;") % (kw, body))
+            elif kind == "pos1": ls.append("pos %s <%d %d %d 0>;" % (r[0], r[1][0], r[1][1], r[1][2]))
+            elif kind == "pos2":
+                a = r[0] if isinstance(r[0], str) else "[%s]" % " ".join(r[0]); b = r[1] if isinstance(r[1], str) else "[%s]" % " ".join(r[1])
+                ls.append("pos %s %s %d;" % (a, b, r[2]))
+        out.append("lookup %s {\n  %s\n} %s;" % (nm, "\n  ".join(ls), nm))
+    for tag, ls in P.features:
+        out.append("feature %s {\n  %s\n} %s;" % (tag, "\n  ".join("lookup %s;" % l for l in ls), tag))
+    return "\n".join(out) + "\n"
+
+def interpret(P, glyphs, adv, features_on):
+    """apply the program as written to a glyph-name sequence; returns [(name, x_advance, x_offset, y_offset)]"""
+    table = {nm: (kind, rules) for nm, kind, rules in P.lookups}
+    index = {nm: i for i, (nm, _, _) in enumerate(P.lookups)}
+    buf = [[g, 0, 0, 0] for g in glyphs]           # name, xAdv adjustment, xPla, yPla
+    def match_sets(sets, seq):
+        return len(seq) >= len(sets) and all(g[0] in s for s, g in zip(sets, seq))
+    def apply_at(nm, i):
+        """one application attempt at position i; returns the index after what was consumed, or None if nothing matched"""
+        kind, rules = table[nm]
+        g = buf[i][0]
+        if kind == "single":
+            for a, b in rules:
+                if a == g: buf[i][0] = b; return i + 1
+        elif kind == "multiple":
+            for a, seq in rules:
+                if a == g:
+                    buf[i:i + 1] = [[s, 0, 0, 0] for s in seq]; return i + len(seq)
+        elif kind == "alternate":
+            for a, alts in rules:
+                if a == g: buf[i][0] = alts[0]; return i + 1
+        elif kind == "ligature":
+            for comps, lig in sorted(rules, key=lambda r: -len(r[0])):
+                if [x[0] for x in buf[i:i + len(comps)]] == comps:
+                    buf[i:i + len(comps)] = [[lig, 0, 0, 0]]; return i + 1
+        elif kind in ("chain", "chainpos"):
+            for pre, inp, suf in rules:
+                n = len(inp)
+                if i < len(pre) or not match_sets(pre, buf[i - len(pre):i]): continue
+                if not match_sets([s for s, _ in inp], buf[i:i + n]) or len(buf[i:i + n]) < n: continue
+                if not match_sets(suf, buf[i + n:i + n + len(suf)]) or len(buf[i + n:]) < len(suf): continue
+                # OpenType: a sequence index counts glyphs of the matched sequence AS IT IS when the record is applied, i.e. after
+                # the earlier records of the same rule have inserted or merged glyphs
+                count = n
+                for k, (_, l) in enumerate(inp):
+                    if not l or k >= count: continue
+                    before = len(buf)
+                    apply_at(l, i + k)
+                    count = max(k + 1, count + len(buf) - before)
+                return max(i + count, i + 1)
+        elif kind == "pos1":
+            for a, (xp, yp, xa) in rules:
+                if a == g:
+                    buf[i][1] += xa; buf[i][2] += xp; buf[i][3] += yp; return i + 1
+        elif kind == "pos2":
+            if i + 1 >= len(buf): return None
+            h = buf[i + 1][0]
+            for a, b, v in rules:
+                if isinstance(a, str) and a == g and b == h:
+                    buf[i][1] += v; return i + 1
+            for a, b, v in rules:
+                if not isinstance(a, str):
+                    # one class-based subtable: once the first glyph is in its coverage the pair is decided there
+                    if g in a:
+                        if h in b: buf[i][1] += v
+                        return i + 1
+        return None
+    active = []
+    for tag, ls in P.features:
+        if tag in features_on: active += ls
+    for stage in ("sub", "pos"):
+        for nm in sorted(set(active), key=lambda n: index[n]):
+            kind = table[nm][0]
+            if (kind in ("pos1", "pos2", "chainpos")) != (stage == "pos"): continue
+            i = 0
+            while i < len(buf):
+                r = apply_at(nm, i)
+                i = r if r is not None else i + 1
+    return [(g, adv[g] + xa, xp, yp) for g, xa, xp, yp in buf]
+
+def build_program_font(P):
+    from fontTools.fontBuilder import FontBuilder
+    from fontTools.feaLib.builder import addOpenTypeFeaturesFromString
+    from props.C07 import _box
+    order = [".notdef"] + P.base + P.extra
+    adv = {g: 400 + 17 * i for i, g in enumerate(order)}
+    fb = FontBuilder(1000, isTTF=True); fb.setupGlyphOrder(order); fb.setupCharacterMap({ord(c): c for c in P.base})
+    fb.setupGlyf({g: _box(adv[g]) for g in order}); fb.setupHorizontalMetrics({g: (adv[g], 20) for g in order})
+    fb.setupHorizontalHeader(ascent=800, descent=-200); fb.setupNameTable({"familyName": "Gen11", "styleName": "R"}); fb.setupOS2(); fb.setupPost()
+    addOpenTypeFeaturesFromString(fb.font, to_fea(P))
+    b = io.BytesIO(); fb.font.save(b)
+    return b.getvalue(), order, adv
+
+def _interp_sweep(tier, rng):
+    from lib.hb import HBFont
+    from fontTools.feaLib.error import FeatureLibError
+    n = 250 if tier == "quick" else 500 if tier == "search" else 6000
+    for i in range(n):
+        P = gen_program(rng)
+        fea = to_fea(P)
+        try:
+            data, order, adv = build_program_font(P)
+        except FeatureLibError as e:
+            yield (("program", i, "rejected"), None); continue
+        except Exception as e:
+            yield (("program", i), "generator/compile failed: %r\n%s" % (e, fea)); continue
+        h = HBFont(data, order)
+        texts = []
+        letters = P.base
+        for a in letters:
+            texts.append(a)
+            for b in letters:
+                texts.append(a + b)
+        for _ in range(120): texts.append("".join(rng.choice(letters) for _ in range(rng.randint(3, 6))))
+        on_default = {"ccmp", "liga", "calt", "rlig", "clig", "kern", "dist"}
+        bad = None
+        for feats, on in (({}, on_default), ({"ss01": True}, on_default | {"ss01"})):
+            if feats and not any(t == "ss01" for t, _ in P.features): continue
+            for t in dict.fromkeys(texts):
+                got = [(g, xa, xo, yo) for g, xa, ya, xo, yo in h.shape(t, features=feats)]
+                want = interpret(P, list(t), adv, on)
+                if got != want:
+                    bad = "text %r features %r: compiled tables give %r, the rules say %r\n%s" % (t, sorted(feats), got, want, fea); break
+            if bad: break
+        yield (("program", i), bad)
+
+_sweeps_stage1 = sweeps
+def sweeps(tier, rng):
+    return _sweeps_stage1(tier, rng) + [Sweep("harfbuzz-vs-rule-text", lambda: _interp_sweep(tier, rng))]
